@@ -11,7 +11,9 @@ from pyhms.core.problem import (EvalCountingProblem, EvalCutoffProblem, Function
                                 StatsGatheringProblem, get_function_problem)
 
 OPT, EPS = 1.0, 0.25
-VALUES = {"opt": [1.0], "edge": [1.25, 0.75], "out": [1.5, -3.0, 1.2500000000000002]}
+# "W" / "B": the infinity that is the worst / the best value for the direction - an objective may return them itself
+# (death penalty for infeasible points); a wrapper must treat them like any other value
+VALUES = {"opt": [1.0], "edge": [1.25, 0.75], "out": [1.5, -3.0, "W", 1.2500000000000002, "B"]}
 BOUNDS = np.array([[-2.0, 3.0], [0.5, 0.75]])
 
 
@@ -58,6 +60,7 @@ def main(table_path, out_path):
                 worst = -math.inf if maximize else math.inf
                 # concrete values for the classes (vary the representative with the position)
                 vals = [VALUES[cls][(li + j) % len(VALUES[cls])] for j, cls in enumerate(c["calls"])]
+                vals = [worst if v == "W" else -worst if v == "B" else v for v in vals]
                 base.values = list(vals) + [0.0] * 8
                 sig0 = f"stack={'/'.join(c['stack'])} maximize={maximize} calls={','.join(c['calls'])}"
                 # static transparency
